@@ -95,9 +95,13 @@ def run(ctx):
     rng = ctx.rng
     g = grammar.Gen(rng, feat={'setops': True})
     texts = []
+    respelled = {}
     for _ in range(ctx.n(700, 15000)):
         stmts = [g.stmt() for _ in range(rng.randint(1, 2))]
         texts.append(grammar.render_script(stmts, grammar.Layout(rng, comments=rng.choice([0, 0, 0.1]), tight=rng.choice([0, 0.3]), inner_ws=[' ']), final_semi=rng.random() < 0.6))
+        # the same script with other whitespace inside multi-word keywords (GROUP  BY, ORDER\tBY, …): reindent clause only —
+        # strip_whitespace keeps such inner runs (known finding KF-C10-2)
+        respelled[len(texts) - 1] = grammar.render_script(stmts, grammar.Layout(rng, comments=0, tight=0, inner_ws=[' ', '  ', '\t', '\n', ' \n ', '   ']), final_semi=False)
     subs = ['indent_tabs', 'indent_after_first', 'indent_columns', 'comma_first', 'compact']
     for i, t in enumerate(texts):
         try:
@@ -112,6 +116,7 @@ def run(ctx):
             if rng.random() < 0.3:
                 o['wrap_after'] = rng.choice([1, 20, 60])
             check_reindent(ctx, t, o)
+            check_reindent(ctx, respelled[i], o)
         except Exception as e:
             ctx.fail('format raised ' + type(e).__name__, t, observed=repr(e)[:200], required='formatted text')
     for c in streams.corpus('C10'):
